@@ -395,11 +395,12 @@ type c01Flags struct {
 	IgnoreTerm       bool // feature ElasticQuotaImmediateIgnoreTerminatingPod
 	ScaleMin         bool
 	NoReparentOver   bool // exclusion pass: never re-parent/delete a quota whose own request exceeds its max
+	Parked           bool // (parked-reserve unit) Reserve/Unreserve are also issued for a pod still parked in the default quota although its own quota exists
 }
 
 func (f c01Flags) String() string {
-	return fmt.Sprintf("orphans=%v eagerMigrate=%v freezeInFallback=%v parentPods=%v ignoreTerminating=%v scaleMin=%v excludeOverMaxMove=%v",
-		f.Orphans, f.EagerMigrate, f.FreezeInFallback, f.ParentPods, f.IgnoreTerm, f.ScaleMin, f.NoReparentOver)
+	return fmt.Sprintf("orphans=%v eagerMigrate=%v freezeInFallback=%v parentPods=%v ignoreTerminating=%v scaleMin=%v excludeOverMaxMove=%v reserveWhileParked=%v",
+		f.Orphans, f.EagerMigrate, f.FreezeInFallback, f.ParentPods, f.IgnoreTerm, f.ScaleMin, f.NoReparentOver, f.Parked)
 }
 
 var c01QuotaNames = []string{"q0", "q1", "q2", "q3", "q4", "q5"}
@@ -424,6 +425,7 @@ type c01World struct {
 	// what the case contained
 	sawReparentLoad, sawDeleteLoad, sawOverMax, sawMinRaise, sawMigrate, sawTerminating, sawReset   bool
 	sawCrossQuota, sawResize, sawUnreserve, sawParentPods, sawFallback, sawDirtyDelete, sawRootDiff bool
+	sawReserveParked, sawReserveMisrouted, sawUnreserveMisrouted                                    bool
 	excludedMoves                                                                                   int
 }
 
@@ -898,6 +900,17 @@ func (w *c01World) opQuotaCreate(t *rapid.T) {
 			free = append(free, n)
 		}
 	}
+	if w.flags.Parked {
+		// prefer the quota a parked pod is waiting for, most of all one that was reserved while parked
+		for _, pn := range vk.SortedKeys(w.pods) {
+			if p := w.pods[pn]; w.inFallback(p) && w.route(p.Spec.Label) == extension.DefaultQuotaName && p.Spec.Label != extension.SystemQuotaName {
+				free = append(free, p.Spec.Label, p.Spec.Label)
+				if p.Assigned && p.Spec.Node == "" {
+					free = append(free, p.Spec.Label, p.Spec.Label, p.Spec.Label)
+				}
+			}
+		}
+	}
 	name := rapid.SampledFrom(free).Draw(t, "newQuota")
 	parent := rapid.SampledFrom(w.parentCandidates(3)).Draw(t, "parent")
 	q := &c01Quota{Name: name, Parent: parent}
@@ -1114,6 +1127,13 @@ func (w *c01World) labelChoices() []string {
 	if w.flags.Orphans {
 		out = append(out, c01QuotaNames...)
 	}
+	if w.flags.Parked { // most pods come before their quota
+		for _, n := range c01QuotaNames {
+			if _, ok := w.quotas[n]; !ok {
+				out = append(out, n, n)
+			}
+		}
+	}
 	for _, n := range w.userQuotas() {
 		if w.quotas[n].IsParent && !w.flags.ParentPods {
 			continue
@@ -1262,7 +1282,7 @@ func (w *c01World) reserveCandidates() []string {
 	var out []string
 	for _, pn := range vk.SortedKeys(w.pods) {
 		p := w.pods[pn]
-		if p.In != "" && !w.misrouted(p) && !p.Assigned {
+		if p.In != "" && (w.flags.Parked || !w.misrouted(p)) && !p.Assigned {
 			out = append(out, pn)
 		}
 	}
@@ -1275,18 +1295,39 @@ func (w *c01World) opReserve(t *rapid.T) {
 
 func (w *c01World) reserve(name string) {
 	p := w.pods[name]
+	mis := w.misrouted(p)
+	if w.inFallback(p) && !mis {
+		w.sawReserveParked = true
+	}
 	p.Assigned = true
 	w.begin("reserve")
-	w.log("reserve %s in %s", name, p.In)
-	w.drv.Reserve(w.route(p.Spec.Label), c01Assumed(p))
+	own := w.route(p.Spec.Label)
+	w.log("reserve %s in %s (event routed to %s)", name, p.In, own)
+	w.drv.Reserve(own, c01Assumed(p))
+	if mis {
+		// The pod is parked in the default quota, its own quota exists. The statement does not say in which of the two the
+		// reservation has to be charged (the manager may move the pod first): the model follows the manager's placement,
+		// everything else (counted once, assigned, all figures) is checked as usual.
+		w.sawReserveMisrouted = true
+		summ := w.drv.Manager().GetQuotaSummaries(true)
+		key := c01PodKey(name)
+		_, inOwn := summ[own].PodCache[key]
+		_, inDef := summ[p.In].PodCache[key]
+		if inOwn && !inDef {
+			p.In = own
+		}
+	}
 }
 
 func (w *c01World) unreserveCandidates() []string {
 	var out []string
 	for _, pn := range vk.SortedKeys(w.pods) {
 		p := w.pods[pn]
-		if p.In != "" && !w.misrouted(p) && p.Assigned && p.Spec.Node == "" {
+		if p.In != "" && (w.flags.Parked || !w.misrouted(p)) && p.Assigned && p.Spec.Node == "" {
 			out = append(out, pn)
+			if w.flags.Parked && w.misrouted(p) {
+				out = append(out, pn, pn) // prefer rolling back a reservation taken while the pod was parked
+			}
 		}
 	}
 	return out
@@ -1298,10 +1339,13 @@ func (w *c01World) opUnreserve(t *rapid.T) {
 
 func (w *c01World) unreserve(name string) {
 	p := w.pods[name]
+	if w.misrouted(p) {
+		w.sawUnreserveMisrouted = true // reserved while parked in the default quota, rolled back after its own quota appeared
+	}
 	p.Assigned = false
 	w.sawUnreserve = true
 	w.begin("unreserve")
-	w.log("unreserve %s in %s", name, p.In)
+	w.log("unreserve %s in %s (event routed to %s)", name, p.In, w.route(p.Spec.Label))
 	w.drv.Unreserve(w.route(p.Spec.Label), c01Assumed(p))
 }
 
@@ -1377,6 +1421,21 @@ func (w *c01World) enabledOps() []c01Op {
 		}
 	}
 	users := w.userQuotas()
+	if w.flags.Parked {
+		// parked-reserve unit: pods wait in the default quota for their quota, the scheduler works on them meanwhile
+		add("quotaCreate", 5, len(users) < len(c01QuotaNames), w.opQuotaCreate)
+		add("quotaUpdate", 1, len(users) > 0, w.opQuotaUpdate)
+		add("quotaReparent", 1, len(w.reparentMoves()) > 0, w.opReparent)
+		add("quotaDelete", 2, len(w.deleteCandidates()) > 0, w.opQuotaDelete)
+		add("podAdd", 6, len(w.pods) < len(c01PodNames), w.opPodAdd)
+		add("podUpdate", 3, len(w.pods) > 0, w.opPodUpdate)
+		add("podDelete", 2, len(w.pods) > 0, w.opPodDelete)
+		add("reserve", 8, len(w.reserveCandidates()) > 0, w.opReserve)
+		add("unreserve", 8, len(w.unreserveCandidates()) > 0, w.opUnreserve)
+		add("migrateCycle", 1, true, w.opMigrate)
+		add("resetQuota", 1, true, w.opReset)
+		return ops
+	}
 	add("quotaCreate", 4, len(users) < len(c01QuotaNames), w.opQuotaCreate)
 	add("quotaUpdate", 4, len(users) > 0, w.opQuotaUpdate)
 	add("quotaToggleLent", 1, len(users) > 0, w.opToggleLent)
@@ -1451,15 +1510,37 @@ func c01GenFlags(t *rapid.T) c01Flags {
 // ---------------------------------------------------------------- the sequential-history property
 
 func c01RunHistory(t *rapid.T, rec *vk.Rec, mk func(scaleMin bool, sysMax, defMax corev1.ResourceList) c01Driver) {
+	c01RunHistoryMode(t, rec, mk, false)
+}
+
+// c01RunParked: the same property with the generator aimed at pods that exist before their quota: they are parked in
+// the default quota, the migrate cycle is rare, and Reserve/Unreserve are issued while a pod is parked, also after its
+// own quota has appeared (the plugin then routes the call to that quota).
+func c01RunParked(t *rapid.T, rec *vk.Rec, mk func(scaleMin bool, sysMax, defMax corev1.ResourceList) c01Driver) {
+	c01RunHistoryMode(t, rec, mk, true)
+}
+
+func c01RunHistoryMode(t *rapid.T, rec *vk.Rec, mk func(scaleMin bool, sysMax, defMax corev1.ResourceList) c01Driver, parked bool) {
 	c := rec.Begin()
 	defer c.End()
-	flags := c01GenFlags(t)
+	var flags c01Flags
+	maxWarmQuotas := 4
+	if parked {
+		flags = c01Flags{Parked: true, Orphans: true,
+			FreezeInFallback: rapid.Bool().Draw(t, "freezeInFallback"),
+			ParentPods:       rapid.Bool().Draw(t, "parentPods"),
+			IgnoreTerm:       rapid.IntRange(0, 3).Draw(t, "ignoreTerminating") == 0,
+			ScaleMin:         rapid.Bool().Draw(t, "scaleMin")}
+		maxWarmQuotas = 2
+	} else {
+		flags = c01GenFlags(t)
+	}
 	c01SetIgnoreTerminating(flags.IgnoreTerm)
 	defer c01SetIgnoreTerminating(false)
 	w := c01NewWorld(t, c, flags, mk)
 
 	// warm start with the ordinary operations so that short cases already have a tree and pods
-	nq := rapid.IntRange(0, 4).Draw(t, "warmQuotas")
+	nq := rapid.IntRange(0, maxWarmQuotas).Draw(t, "warmQuotas")
 	for i := 0; i < nq && !w.dead; i++ {
 		w.opQuotaCreate(t)
 		w.check(t)
@@ -1495,9 +1576,16 @@ func c01RunHistory(t *rapid.T, rec *vk.Rec, mk func(scaleMin bool, sysMax, defMa
 	c.ClassIf(flags.Orphans && flags.EagerMigrate && flags.FreezeInFallback, "mode:orphans-safe-fallback")
 	c.ClassIf(flags.NoReparentOver, "mode:exclude-over-max-move")
 	c.ClassIf(w.excludedMoves > 0, "excluded-over-max-move")
+	c.ClassIf(w.sawReserveParked, "reserve-while-parked-in-default")
+	c.ClassIf(w.sawReserveMisrouted, "reserve-while-parked-after-own-quota-appeared")
+	c.ClassIf(w.sawUnreserveMisrouted, "unreserve-while-parked-after-own-quota-appeared")
 	c.ClassIf(flags.IgnoreTerm, "mode:ignore-terminating")
 	c.ClassIf(len(w.hist) >= 20, "history>=20")
-	if w.sawReparentLoad || w.sawDeleteLoad || w.sawOverMax {
+	nt := w.sawReparentLoad || w.sawDeleteLoad || w.sawOverMax
+	if parked { // a reservation taken or rolled back while the pod is parked in the default quota
+		nt = w.sawReserveParked || w.sawReserveMisrouted || w.sawUnreserveMisrouted
+	}
+	if nt {
 		c.NonTrivial(w.hist)
 	}
 	if c.WantSample() {
@@ -1693,5 +1781,222 @@ func c01RunConcurrent(t *rapid.T, rec *vk.Rec, mk func(scaleMin bool, sysMax, de
 	}
 	if c.WantSample() {
 		c.Sample(map[string]any{"flags": flags.String(), "goroutines": len(lanes), "history": w.hist})
+	}
+}
+
+// ---------------------------------------------------------------- concurrent bursts around a leaf's max
+
+type c01BurstStep struct {
+	Pod     int   // index into the goroutine's own pods
+	Present bool  // true: the pod exists with request Units afterwards (add, or resize); false: the pod is gone afterwards
+	Units   int64 // request in units (both dimensions, or cpu only for a cpu-only pod)
+}
+
+func (s c01BurstStep) String() string {
+	if !s.Present {
+		return fmt.Sprintf("pod%d:absent", s.Pod)
+	}
+	return fmt.Sprintf("pod%d:present(%d)", s.Pod, s.Units)
+}
+
+var c01BurstUnit = c01Vec{1000, 1 << 20}
+
+// c01RunBurst: a chain root <- ancestors <- leaf with a small leaf max; 2-6 goroutines, each owning its own pods, each
+// applying a generated list of add / resize / delete events (a generated pattern repeated a generated number of times)
+// whose requests are chosen around the leaf's max, so that the leaf's summed request keeps crossing it. All goroutines
+// are joined, then the usual oracle runs at quiescence: every figure must be what the FINAL live pod set implies
+// (from-scratch recomputation + fresh manager). The final pod set does not depend on the schedule (each pod belongs to
+// one goroutine), so the verdict on correct code is schedule-independent; whether a lost update is provoked is not.
+func c01RunBurst(t *rapid.T, rec *vk.Rec, mk func(scaleMin bool, sysMax, defMax corev1.ResourceList) c01Driver) {
+	c := rec.Begin()
+	defer c.End()
+	c01SetIgnoreTerminating(false)
+	w := c01NewWorld(t, c, c01Flags{ScaleMin: rapid.Bool().Draw(t, "scaleMin")}, mk)
+	mkQuota := func(q *c01Quota) bool {
+		w.begin("quotaCreate")
+		w.quotas[q.Name] = q
+		w.log("quotaCreate %s", q)
+		if err := w.upsert(q); err != nil {
+			w.violation(t, "quotaCreate:error", "UpdateQuota(%s) returned %v", q, err)
+		}
+		w.check(t)
+		return !w.dead
+	}
+	scale := func(units int64) c01Vec { return c01Vec{units * c01BurstUnit[0], units * c01BurstUnit[1]} }
+	// ancestors
+	parent := extension.RootQuotaName
+	depth := rapid.IntRange(1, 3).Draw(t, "ancestors")
+	for i := 0; i < depth; i++ {
+		q := &c01Quota{Name: c01QuotaNames[i], Parent: parent, IsParent: true, AllowLent: rapid.IntRange(0, 3).Draw(t, "ancestorLent") > 0,
+			Max: scale(rapid.SampledFrom([]int64{1000, 1000, 1000, 8, 20}).Draw(t, "ancestorMax"))}
+		if !q.AllowLent {
+			q.Min, q.MinHas = scale(rapid.Int64Range(0, 4).Draw(t, "ancestorMin")), c01Both
+		}
+		if !mkQuota(q) {
+			return
+		}
+		parent = q.Name
+	}
+	leafMax := rapid.Int64Range(2, 12).Draw(t, "leafMaxUnits")
+	leaf := &c01Quota{Name: "q5", Parent: parent, AllowLent: rapid.IntRange(0, 3).Draw(t, "leafLent") > 0, Max: scale(leafMax)}
+	if rapid.IntRange(0, 3).Draw(t, "memoryUncapped") == 0 {
+		leaf.Max[1] = 1 << 50
+	}
+	if !leaf.AllowLent {
+		leaf.Min, leaf.MinHas = scale(rapid.Int64Range(0, leafMax/2).Draw(t, "leafMin")), c01Both
+	}
+	if !mkQuota(leaf) {
+		return
+	}
+	specFor := func(name string, units int64, cpuOnly, bound bool, rv int) c01PodSpec {
+		r := c01Res{Has: c01Both, Val: scale(units)}
+		if cpuOnly {
+			r.Has[1], r.Val[1] = false, 0
+		}
+		sp := c01PodSpec{Name: name, Label: leaf.Name, Ctrs: []c01Res{r}, RV: rv}
+		if bound {
+			sp.Node = "node-a"
+		}
+		return sp
+	}
+	// a base load that stays
+	base := rapid.Int64Range(0, leafMax-1).Draw(t, "baseUnits")
+	if rapid.IntRange(0, 5).Draw(t, "baseAtOrAboveMax") == 0 {
+		base = leafMax + rapid.Int64Range(0, 1).Draw(t, "baseExtra")
+	}
+	if base > 0 {
+		sp := specFor("base", base, false, rapid.Bool().Draw(t, "baseBound"), 1)
+		p := &c01Pod{Spec: sp, Obj: sp.build(), In: leaf.Name, Assigned: sp.Node != ""}
+		w.pods["base"] = p
+		w.begin("podAdd")
+		w.log("podAdd %s -> %s", sp, leaf.Name)
+		w.plugPodAdd(p)
+		w.check(t)
+		if w.dead {
+			return
+		}
+	}
+	gap := leafMax - base // what is missing to reach the max
+	if gap < 1 {
+		gap = 1
+	}
+	// the goroutines' event lists
+	ng := rapid.IntRange(2, 6).Draw(t, "goroutines")
+	inner := w.drv
+	lanes := make([][]func(), ng)
+	crossers, growers, total := 0, 0, 0
+	for g := 0; g < ng; g++ {
+		npods := rapid.IntRange(1, 2).Draw(t, "ownPods")
+		cpuOnly := make([]bool, npods)
+		bound := make([]bool, npods)
+		for i := range cpuOnly {
+			cpuOnly[i] = rapid.IntRange(0, 3).Draw(t, "cpuOnly") == 0
+			bound[i] = rapid.IntRange(0, 2).Draw(t, "bound") == 0
+		}
+		// request sizes around the boundary: small ones, and ones that carry the leaf to / over its max
+		sizes := []int64{1, 1, 2, gap, gap + 1, leafMax}
+		var pattern []c01BurstStep
+		role := rapid.IntRange(0, 3).Draw(t, "role")
+		switch {
+		case g == 0 && role > 0: // one pod whose presence alone saturates the leaf comes and goes
+			pattern = []c01BurstStep{{0, true, gap + rapid.Int64Range(0, 1).Draw(t, "bigExtra")}, {0, false, 0}}
+		case role == 1: // a small pod comes and goes
+			pattern = []c01BurstStep{{0, true, rapid.Int64Range(1, 2).Draw(t, "small")}, {0, false, 0}}
+		default:
+			n := rapid.IntRange(2, 6).Draw(t, "patternLen")
+			for k := 0; k < n; k++ {
+				st := c01BurstStep{Pod: rapid.IntRange(0, npods-1).Draw(t, "stepPod"), Present: rapid.IntRange(0, 2).Draw(t, "stepPresent") > 0}
+				if st.Present {
+					st.Units = rapid.SampledFrom(sizes).Draw(t, "stepUnits")
+				}
+				pattern = append(pattern, st)
+			}
+		}
+		reps := rapid.IntRange(1, 400).Draw(t, "repetitions")
+		// expand: what each step means depends on the pod's state at that point of this goroutine's own list
+		cur := make([]*c01Pod, npods)
+		rv := 0
+		grows, shrinks := false, false
+		for r := 0; r < reps; r++ {
+			for _, st := range pattern {
+				name := fmt.Sprintf("g%dp%d", g, st.Pod)
+				old := cur[st.Pod]
+				switch {
+				case st.Present && old == nil:
+					rv++
+					sp := specFor(name, st.Units, cpuOnly[st.Pod], bound[st.Pod], rv)
+					p := &c01Pod{Spec: sp, Obj: sp.build(), In: leaf.Name, Assigned: sp.Node != ""}
+					cur[st.Pod] = p
+					obj := p.Obj
+					lanes[g] = append(lanes[g], func() { inner.PodAdd(leaf.Name, obj) })
+					grows = true
+				case st.Present && old.Spec.Ctrs[0].Val[0] != st.Units*c01BurstUnit[0]:
+					rv++
+					sp := specFor(name, st.Units, cpuOnly[st.Pod], bound[st.Pod], rv)
+					p := &c01Pod{Spec: sp, Obj: sp.build(), In: leaf.Name, Assigned: old.Assigned}
+					cur[st.Pod] = p
+					oldObj, obj := old.Obj, p.Obj
+					lanes[g] = append(lanes[g], func() { inner.PodUpdate(leaf.Name, leaf.Name, obj, oldObj) })
+					grows, shrinks = true, true
+				case !st.Present && old != nil:
+					cur[st.Pod] = nil
+					obj := old.Obj
+					lanes[g] = append(lanes[g], func() { inner.PodDelete(leaf.Name, obj) })
+					shrinks = true
+				}
+			}
+		}
+		for i, p := range cur {
+			if p != nil {
+				w.pods[fmt.Sprintf("g%dp%d", g, i)] = p
+			}
+		}
+		total += len(lanes[g])
+		if grows {
+			growers++
+		}
+		if grows && shrinks && len(lanes[g]) >= 50 {
+			crossers++
+		}
+		w.log("goroutine %d: pods=%d cpuOnly=%v bound=%v pattern=%v x %d -> %d calls", g, npods, cpuOnly, bound, pattern, reps, len(lanes[g]))
+	}
+	var wg sync.WaitGroup
+	start := make(chan struct{})
+	panics := make([]any, ng)
+	for g := range lanes {
+		wg.Add(1)
+		go func(g int) {
+			defer wg.Done()
+			defer func() { panics[g] = recover() }()
+			<-start
+			for _, call := range lanes[g] {
+				call()
+			}
+		}(g)
+	}
+	close(start)
+	wg.Wait() // no goroutine outlives the case
+	w.begin("burst")
+	for g := range panics {
+		if panics[g] != nil {
+			w.violation(t, "burst:panic", "goroutine %d panicked: %v", g, panics[g])
+			return
+		}
+	}
+	w.log("-- %d calls issued from %d goroutines released together; leaf max=%d units, base=%d units", total, ng, leafMax, base)
+	w.check(t)
+	w.differential(t, "after concurrent bursts")
+
+	c.Class("burst")
+	c.ClassIf(w.sawOverMax, "leaf-over-max-at-quiescence")
+	c.ClassIf(base < leafMax, "base-below-leaf-max")
+	c.ClassIf(crossers >= 2, "two-goroutines-growing-and-shrinking")
+	c.ClassIf(total >= 1000, "calls>=1000")
+	c.ClassIf(depth >= 2, "ancestors>=2")
+	if crossers >= 1 && growers >= 2 && total >= 200 {
+		c.NonTrivial(w.hist)
+	}
+	if c.WantSample() {
+		c.Sample(map[string]any{"goroutines": ng, "history": w.hist})
 	}
 }
